@@ -160,6 +160,10 @@ def analyse_tu(eng, cfg):
     sliced_pub = []
     for f in irrules.gch_roots(eng):
         bn = base_name(f.pretty)
+        if getattr(cfg, 'canary', False) and 'canary_' in (f.pretty or ''):
+            n += 1
+            eng.walk(f, [rule])
+            continue
         if not is_public(f) or bn not in LISTED:
             continue
         args = f.pretty[f.pretty.find('('):]
